@@ -260,3 +260,47 @@ package keeper
 //@   show exclusive: !(e1 == nil && e2 == nil)
 //@
 //@ // source, destination, sequence and data are bound by construction: they are arguments of the verified relation (C01.accepted_means_verified#verified).
+//@
+//@ // ---------------------------------------------------------------------------------------------------------
+//@ // C15: privileged handlers. The authority comparison is the first thing on every path; a refused request reaches no
+//@ // keeper mutator and leaves store and events untouched.
+//@ func (msgServer).CreateClient(goCtx, msg) (resp, err)
+//@   props C15
+//@   modifies tibc, events
+//@   ensures authority:  msg.Authority != self.k.authority ==> err != nil && tibc == old(tibc) && events == old(events) && !called((Keeper).CreateClient)
+//@   ensures no_clobber: present(old(tibc)[clientState(msg.ChainName)]) ==> err != nil && tibc == old(tibc) && events == old(events) && !called((Keeper).CreateClient)
+//@   ensures args:       forall c in calls((Keeper).CreateClient) :: c.chainName == msg.ChainName && c.clientState == clienttypes.unpackCS(msg.ClientState) && c.consensusState == clienttypes.unpackCons(msg.ConsensusState)
+//@   ensures propagate:  forall c in calls((Keeper).CreateClient) :: c.err != nil ==> err != nil
+//@   ensures done:       err == nil ==> called((Keeper).CreateClient)
+//@
+//@ func (msgServer).UpgradeClient(goCtx, msg) (resp, err)
+//@   props C15
+//@   modifies tibc, events
+//@   ensures authority:  msg.Authority != self.k.authority ==> err != nil && tibc == old(tibc) && events == old(events) && !called((Keeper).UpgradeClient)
+//@   ensures args:       forall c in calls((Keeper).UpgradeClient) :: c.chainName == msg.ChainName && c.upgradedClientState == clienttypes.unpackCS(msg.ClientState) && c.upgradedConsState == clienttypes.unpackCons(msg.ConsensusState)
+//@   ensures propagate:  forall c in calls((Keeper).UpgradeClient) :: c.err != nil ==> err != nil
+//@   ensures sametype:   err == nil ==> present(old(tibc)[clientState(msg.ChainName)]) &&
+//@                          clienttypes.unpackCS(msg.ClientState).ClientType() == clienttypes.csDecode(val(old(tibc)[clientState(msg.ChainName)])).ClientType()
+//@
+//@ func (msgServer).RegisterRelayer(goCtx, msg) (resp, err)
+//@   props C15
+//@   modifies tibc, events
+//@   ensures authority:  msg.Authority != self.k.authority ==> err != nil && tibc == old(tibc) && events == old(events) && !called((Keeper).RegisterRelayers)
+//@   ensures args:       forall c in calls((Keeper).RegisterRelayers) :: c.chainName == msg.ChainName && c.relayers == msg.Relayers
+//@   ensures only_registry: forall k: key :: k != relayers(msg.ChainName) ==> tibc[k] == old(tibc)[k]
+//@
+//@ func (msgServer).SetRoutingRules(goCtx, msg) (resp, err)
+//@   props C15 C12
+//@   modifies tibc, events
+//@   ensures authority:  msg.Authority != self.k.authority ==> err != nil && tibc == old(tibc) && events == old(events) && !called((Keeper).SetRoutingRules)
+//@   ensures args:       forall c in calls((Keeper).SetRoutingRules) :: c.rules == msg.Rules
+//@   ensures propagate:  forall c in calls((Keeper).SetRoutingRules) :: c.err != nil ==> err != nil
+//@   ensures only_rules: forall k: key :: k != routingRules() ==> tibc[k] == old(tibc)[k]
+//@
+//@ func (msgServer).UpdateClient(goCtx, msg) (resp, err)
+//@   props C15 C14 C07
+//@   modifies tibc, events
+//@   let R = clientkeeper.relayersOf(tibc[relayers(msg.ChainName)])
+//@   ensures relayer:    !clientkeeper.listed(R, msg.Signer) ==> err != nil && tibc == old(tibc) && events == old(events) && !called((Keeper).UpdateClient)
+//@   ensures args:       forall c in calls((Keeper).UpdateClient) :: c.chainName == msg.ChainName && c.header == clienttypes.unpackHeader(msg.Header)
+//@   ensures propagate:  forall c in calls((Keeper).UpdateClient) :: c.err != nil ==> err != nil
